@@ -222,7 +222,7 @@ pub fn shapes(args: &Args) -> SubResult {
     for n in 1..=3 {
         all.extend(shape_scripts(n));
     }
-    res.bound = format!("all {} look-up graphs on 1..3 scripted assets (per ordered pair: none / get_cached look-up / (forward only) load), self-loops and cycles included; each loaded, then a leaf edit and a script touch are notified and hot_reload is called twice; one child process per shape", all.len());
+    res.bound = format!("all {} look-up graphs on 1..3 scripted assets (per ordered pair: none / get_cached look-up / (forward only) load), self-loops and cycles included, plus burst shapes and two-wide ladders of 6 and 40 levels; each loaded, then a leaf edit and a script touch are notified and hot_reload is called twice; one child process per shape", all.len());
     res.rule = "exhaustive over shapes; each executed on the real crate under detsched in a child process; oracle = child exits normally (no stack overflow / abort), no deadlock, plus the C05/C06 pass oracles; distinct = distinct (canonical state, observations)".into();
     // burst shapes: one reload pass that loads many assets which are not cached yet (an index
     // whose list grew): the reloader registers each of them with itself while it is busy
@@ -230,12 +230,18 @@ pub fn shapes(args: &Args) -> SubResult {
     for n in &burst_sizes {
         all.push(vec![format!("BURST:{n}")]);
     }
+    // ladder shapes: k levels of two assets, each looking up / loading both assets of the level below
+    // (2^k paths through 2k assets): the reload ordering must be linear in the graph, not in its paths
+    for k in [6usize, 40] {
+        all.push(vec![format!("LADDER:{k}")]);
+    }
     let total = all.len();
     let dir = std::env::temp_dir();
     vcommon::run_cases(args, res, total, std::time::Duration::from_secs(600), |idx, res| {
         let scripts = &all[idx];
         let burst: Option<usize> = scripts[0].strip_prefix("BURST:").and_then(|x| x.parse().ok());
-        let n = scripts.len();
+        let ladder: Option<usize> = scripts[0].strip_prefix("LADDER:").and_then(|x| x.parse().ok());
+        let mut n = scripts.len();
         let mut files = vec!["l0.l=1".to_string()];
         let mut leaves = vec!["l0".to_string()];
         if let Some(k) = burst {
@@ -244,6 +250,16 @@ pub fn shapes(args: &Args) -> SubResult {
                 files.push(format!("a{i}.l={i}"));
                 leaves.push(format!("a{i}"));
             }
+        } else if let Some(k) = ladder {
+            // n1, n2 = bottom level ... n(2k-1), n(2k) = top level
+            for lvl in 0..k {
+                for side in 0..2 {
+                    let me = 2 * lvl + side + 1;
+                    let script = if lvl == 0 { "L:l0".to_string() } else { format!("J:n{} J:n{}", 2 * lvl - 1, 2 * lvl) };
+                    files.push(format!("n{me}.n={script}"));
+                }
+            }
+            n = 2 * k;
         } else {
             for (i, s) in scripts.iter().enumerate() {
                 files.push(format!("n{}.n={s}", i + 1));
@@ -263,7 +279,7 @@ pub fn shapes(args: &Args) -> SubResult {
             check_ledger: burst.is_none(),
             check_presence: false,
         };
-        let mut ops: Vec<String> = (1..=n).map(|i| format!("load N n{i}")).collect();
+        let mut ops: Vec<String> = if ladder.is_some() { vec![format!("load N n{}", n - 1), format!("load N n{n}")] } else { (1..=n).map(|i| format!("load N n{i}")).collect() };
         if let Some(k) = burst {
             let script: Vec<String> = (0..k).map(|i| format!("L:a{i}")).collect();
             ops.push(format!("put n1.n {}", script.join(" ")));
@@ -290,7 +306,12 @@ pub fn shapes(args: &Args) -> SubResult {
                     Some(sig) => format!("signal{sig}"),
                     None => format!("exit{}", s.code().unwrap_or(-1)),
                 };
-                res.violation(format!("c08_shapes:crash[{how}]"), format!("the process died ({s}) while hot-reloading the look-up graph {scripts:?}"), replay);
+                if s.code() == Some(2) {
+                    // the scheduler's watchdog: the thread holding the token reached no scheduling point for 45 s
+                    res.violation("c08_shapes:no-progress".to_string(), format!("a thread computed for more than 45 s without reaching any synchronisation or I/O operation while hot-reloading the look-up graph {scripts:?} (unbounded work)"), replay);
+                } else {
+                    res.violation(format!("c08_shapes:crash[{how}]"), format!("the process died ({s}) while hot-reloading the look-up graph {scripts:?}"), replay);
+                }
             }
             Err(e) => {
                 res.evaluations += 1;
